@@ -11,7 +11,7 @@ pub struct EncObs {
     pub res: Result<Result<usize, ()>, PanicSig>,
     pub buf: Vec<u8>,
     pub poison: Vec<u8>,
-    /// which buffer this observation was made into: "roomy" (700 bytes), "tight" (len..len+2),
+    /// which buffer this observation was made into: "roomy" (700 bytes), "tight" (len..len+2), "landmark" (255, 256, 257, 260, 511, 512, 1024 or 4096 bytes),
     /// "short:claimed-ok" (shorter than the packet and the encoder still reported success) or
     /// "roomy:after-short-refused" (a shorter buffer was refused or panicked - not judged)
     pub mode: &'static str,
@@ -62,6 +62,14 @@ pub fn observe(c: &Call, poison_seed: u64) -> EncObs {
             if sel < 16 {
                 let (res, buf, poison) = encode_poisoned(c, *n + (sel % 3) as usize, poison_seed ^ 0x5EED);
                 return EncObs { res, buf, poison, mode: "tight" };
+            } else if sel >= 44 {
+                // a landmark capacity, where a buffer length kept in a narrower integer would wrap
+                const LANDMARKS: [usize; 8] = [255, 256, 257, 260, 511, 512, 1024, 4096];
+                let l = LANDMARKS[(h / 48 % 8) as usize];
+                if l >= *n {
+                    let (res, buf, poison) = encode_poisoned(c, l, poison_seed ^ 0x1A2D);
+                    return EncObs { res, buf, poison, mode: "landmark" };
+                }
             } else if sel < 19 {
                 let short = 1 + (h / 48 % 6) as usize;
                 let (r2, b2, p2) = encode_poisoned(c, *n - short.min(*n - 1), poison_seed ^ 0x5407);
